@@ -63,6 +63,23 @@ NUM: /[0-9]+/
 %ignore /\s+/
 '''
 
+# inlined rules that reduce to a node WITHOUT children (everything filtered out, or explicitly empty) and lead their parent:
+# the tree builder extends the child list of such a node in place
+G_INL0 = r'''
+start: _seq
+_seq: | _seq item
+item: _open NAME _close
+    | _mark item "!" -> marked
+    | _open _close -> unit
+    | NUM
+_open: "("
+_close: ")"
+_mark: "@" | "#"
+NAME: /[a-z]+/
+NUM: /[0-9]+/
+%ignore /\s+/
+'''
+
 G_KW = r'''
 start: stmt+
 stmt: "if"i cond "then" stmt -> ifs
@@ -254,6 +271,10 @@ _add(Entry('inl', G_INL, {'parser': 'lalr'},
            samples={'NAME': ['x', 'ab', 'q'], 'NUM': ['1', '42']},
            texts=["a = 1, b;\n(c = [d, 2];) e = [];", "x = y; (z = 1;", "q = [1, [2, w]], r;\n s = t;", "a = ; b = 1;", "a = 1; ?",
                   "a=[];", "(a=b,c;(d=[e];))", "a = [1,, 2];", ""]))
+_add(Entry('inl0', G_INL0, {'parser': 'lalr'},
+           _prod(LX, {'ph': {}, 'noph': {'maybe_placeholders': False}, 'kat': {'keep_all_tokens': True}, 'pp': {'propagate_positions': True}}),
+           samples={'NAME': ['x', 'ab'], 'NUM': ['1', '42']},
+           texts=["(a) 1 @2!", "@#(b)!! 3 ()", "", "( 1", "@ ! 2", "1 2 (c) (d)", "()()@()!"]))
 _add(Entry('kw', G_KW, {'parser': 'lalr'},
            _prod(LX, {'ph': {}, 'noph': {'maybe_placeholders': False}, 'pp': {'propagate_positions': True}}),
            samples={'NAME': ['foo', 'Bar', 'iff'], 'NUM': ['7', '10']},
